@@ -355,9 +355,9 @@ def apply_rewrites(src, mask, it, ed, stats, spec_entry):
     for k, L in enumerate(loops):
         if L['kind'] != 'for': continue
         btxt = src[L['body_open']:L['body_close']]
-        if not any(mask[L['body_open'] + m.start()] == ord('c') for m in re.finditer(r'\bcontinue\b', btxt)):
-            continue
         hdr = src[L['kw']:L['body_open']]
+        if not any(mask[L['body_open'] + m.start()] == ord('c') for m in re.finditer(r'\bcontinue\b', btxt)) and not re.search(r'\.split_whitespace\(\)\s*$', hdr):
+            continue        # (a loop over SplitWhitespace is always desugared: Verus has no for-loop support for that iterator)
         m = re.match(r'for\s+(.+?)\s+in\s+(.+?)\s*$', hdr, re.S)
         if not m: raise ToolError('R3: cannot parse for header %r' % hdr)
         pat, expr = m.group(1), m.group(2)
@@ -460,7 +460,7 @@ def apply_rewrites(src, mask, it, ed, stats, spec_entry):
     #   X.starts_with("LIT")          => ({ proof { reveal_strlit("LIT"); } starts_with_lit(X, "LIT") })   [ensures: true => byte offset |LIT| is a char boundary inside X]
     #   X[N..]                        => str_tail(X, N)                                                     [requires that boundary fact: the slice cannot panic]
     #   E.strip_suffix("LIT")         => strip_suffix_lit(E, "LIT");   X.split("LIT") => split_lit(X, "LIT") (the pieces, collected)
-    #   X.to_string().parse::<T>()    => parse_i32 / parse_f32(&X.to_string())
+    #   X.to_string().parse::<T>()    => parse_i32 / parse_f32(&X.to_string());   X.parse::<T>() => parse_i32_str / parse_f32_str(&*X)
     for m in re.finditer(r'(?<![\w.])([a-z_]\w*)\.starts_with\(\s*("(?:[^"\\]|\\.)*")\s*\)', body):
         if mask[lo + m.start()] != ord('c'): continue
         ed.replace(lo + m.start(), lo + m.end(), '({ proof { reveal_strlit(%s); } crate::spec::starts_with_lit(%s, %s) })' % (m.group(2), m.group(1), m.group(2)))
@@ -478,6 +478,10 @@ def apply_rewrites(src, mask, it, ed, stats, spec_entry):
     for m in re.finditer(r'(?<![\w.])([a-z_]\w*)\.to_string\(\)\.parse::<(i32|f32)>\(\)', body):
         if mask[lo + m.start()] != ord('c'): continue
         ed.replace(lo + m.start(), lo + m.end(), 'crate::spec::parse_%s(&%s.to_string())' % (m.group(2), m.group(1)))
+        stats['R15_str'] = stats.get('R15_str', 0) + 1
+    for m in re.finditer(r'(?<![\w.])([a-z_]\w*)\.parse::<(i32|f32)>\(\)', body):          # the same on a string slice / String variable directly
+        if mask[lo + m.start()] != ord('c'): continue
+        ed.replace(lo + m.start(), lo + m.end(), 'crate::spec::parse_%s_str(&*%s)' % (m.group(2), m.group(1)))
         stats['R15_str'] = stats.get('R15_str', 0) + 1
     # R13: the two comparator closures the crate sorts with: `E.sort_by(|a, b| a.partial_cmp(b).unwrap());` / `E.sort_by(|a, b| a.total_cmp(b));`
     #      => named wrappers whose bodies are these very calls (assumed contracts: a permutation ordered by the comparator)
@@ -859,6 +863,73 @@ def r9_desugar_iterators(srcs, stats):
     return out
 
 
+OUTLINES = [
+    # (module, function, loop ordinal, new function, types of the captured `let mut` locals of the enclosing function that the body uses, in declaration order)
+    dict(mod='parser', fn='parse_program', loop=0, name='parse_program__token', var_type='&str', mut_cap_types=['usize']),
+]
+
+
+def r16_outline_loop_bodies(srcs, stats):
+    """R16: the body of a listed `for X in E { BODY }` loop is moved, verbatim, into a function of its own, appended to the module, and the loop
+    calls that function; `continue` becomes `return`.  Its parameters are, in this order: the parameters of the enclosing function that BODY
+    mentions (same names, same types), the loop variable X, and the `let mut` locals of the enclosing function that BODY mentions, passed by
+    `&mut` (every mention becomes `(*name)`).  Names are read off the code, so renaming any of them changes nothing.  The per-iteration
+    behaviour can then carry a contract of its own.  A body that leaves the loop by `break` or `return` is not outlined."""
+    out = dict(srcs)
+    for o in OUTLINES:
+        if o['mod'] not in out: continue
+        src = out[o['mod']]; mask = rsitems.scan_tokens(src)
+        fit = None
+        def walk(its):
+            nonlocal fit
+            for it in its:
+                if it['kind'] == 'mod' and is_cfg_test(src, it): continue
+                if it['kind'] == 'fn' and it['name'] == o['fn'] and it['body_start'] is not None: fit = it
+                if it.get('children'): walk(it['children'])
+        walk(rsitems.items(src, mask=mask))
+        if fit is None: continue
+        loops = find_loops(src, mask, fit['body_start'] + 1, fit['end'] - 1)
+        if o['loop'] >= len(loops): continue
+        L = loops[o['loop']]
+        hm = re.match(r'for\s+([a-z_]\w*)\s+in\b', src[L['kw']:L['body_open']])
+        if L['kind'] != 'for' or not hm: continue
+        var = hm.group(1)
+        body = src[L['body_open'] + 1:L['body_close']]
+        bmask = mask[L['body_open'] + 1:L['body_close']]
+        code_only = ''.join(ch if bmask[i] == ord('c') else ' ' for i, ch in enumerate(body))
+        if re.search(r'\b(break|return)\b', code_only) or re.search(r"'[a-z_]\w*\s*:", code_only): continue
+        used = lambda n: re.search(r'(?<![\w.])%s\b' % re.escape(n), code_only) is not None
+        # parameters of the enclosing function that the body mentions
+        po = src.index('(', fit['kw']); pe = _close_paren(src, mask, po)
+        params = []
+        for a in (split_args(src, mask, po + 1, pe - 1) or []):
+            am = re.match(r'\s*(?:mut\s+)?([a-z_]\w*)\s*:\s*(.+?)\s*$', a, re.S)
+            if am and used(am.group(1)): params.append((am.group(1), re.sub(r'\s+', ' ', am.group(2))))
+        if any(not t.startswith('&') for _, t in params): continue       # a by-value parameter would be moved in the first iteration
+        # `let mut` locals declared before the loop that the body mentions
+        pre = src[fit['body_start'] + 1:L['kw']]; pmask = mask[fit['body_start'] + 1:L['kw']]
+        caps = [m.group(1) for m in re.finditer(r'\blet\s+mut\s+([a-z_]\w*)\b', pre) if pmask[m.start()] == ord('c') and used(m.group(1))]
+        imm = [m.group(1) for m in re.finditer(r'\blet\s+([a-z_]\w*)\b', pre) if pmask[m.start()] == ord('c') and m.group(1) != 'mut' and used(m.group(1))]
+        if imm or len(caps) != len(o['mut_cap_types']): continue          # a shape this table entry does not describe: leave the loop as it is
+        def sub_code(text, rx, rep):
+            m_ = rsitems.scan_tokens(text); res = []; pos = 0
+            for x in re.finditer(rx, text):
+                if m_[x.start()] != ord('c'): continue
+                res.append(text[pos:x.start()]); res.append(rep(x)); pos = x.end()
+            res.append(text[pos:]); return ''.join(res)
+        nb = sub_code(body, r'\bcontinue\s*;', lambda x: 'return;')
+        for c in caps:
+            nb = sub_code(nb, r'(?<![\w.])%s\b(?!\s*\()' % re.escape(c), lambda x, c=c: '(*%s)' % c)
+        plist = ['%s: %s' % (n, t) for n, t in params] + ['%s: %s' % (var, o['var_type'])] + ['%s: &mut %s' % (c, t) for c, t in zip(caps, o['mut_cap_types'])]
+        alist = [n for n, _ in params] + [var] + ['&mut %s' % c for c in caps]
+        call = ' %s(%s); ' % (o['name'], ', '.join(alist))
+        newsrc = src[:L['body_open'] + 1] + call + '\n' * body.count('\n') + src[L['body_close']:]
+        newsrc = newsrc.rstrip('\n') + '\n\n/// R16: the body of the `for %s in ..` loop of %s, outlined\nfn %s(%s) {%s}\n' % (var, o['fn'], o['name'], ', '.join(plist), nb)
+        out[o['mod']] = newsrc
+        stats['R16_outlined'] = stats.get('R16_outlined', 0) + 1
+    return out
+
+
 def r8_inline_new_helpers(srcs, known_units, stats):
     """R8: a free function the specification has never seen (absent from spec/known_units.txt) that is pure and straight-line
     (no `&mut` parameter, no generics, no return / ? / loop / unsafe / closure, not recursive) and is only ever *called*, from
@@ -993,6 +1064,7 @@ def _assemble(repo, spec, rows=None, canary=None, opts=None):
     reg = registry(srcs)
     ROWS = getattr(rows, 'ROWS', {}) if rows else {}
     stats = {k: 0 for k in REWRITE_STATS_KEYS}
+    srcs = r16_outline_loop_bodies(srcs, stats)
     srcs = r9_desugar_iterators(srcs, stats)
     r8_done = {}
     if opts.get('known_units'):
